@@ -1,8 +1,11 @@
 import PySMT.Impl.Rewritings.Partition
 import PySMT.Impl.Rewritings.Shannon
+import PySMT.Impl.Subst
+import PySMT.Impl.Simplifier
 /-!
 # Model of `propagate_toplevel` and `DisjointSet` (`pysmt/rewritings.py:939-1115`)
-(`do_simplify = False`, `preserve_equivalence = True`).
+(`do_simplify = False`, `preserve_equivalence = True`; `propagateSimp` composes it with the simplifier model of
+C01 for the default `do_simplify = True`).  `formula.substitute(sigma)` is the `MGSubstituter` model of C05.
 
 The ranking function of the disjoint set compares node ids of symbols; the model takes them
 as a parameter `rank` (the harness sends the ids the real run used).  `DisjointSet.group` is
@@ -75,7 +78,9 @@ def propagate (rank : Term → Int) (t : Term) : Option Term := do
   let moved := l.filter (fun kv => kv.1 != kv.2)
   if moved.any (fun kv => isConstant kv.1 && isConstant kv.2) then pure Term.ff
   else
-    let res := substT moved t
+    -- `formula.substitute(sigma)`: the full `MGSubstituter` model of C05 (rebuilds through every manager
+    -- constructor: `ToReal` of a constant folds, `Div` by a constant becomes a product, …)
+    let res := Subst.substG false Subst.noInterp moved t
     pure (mkAnd [res, mkAnd (moved.map (fun kv => Term.mkEq kv.1 kv.2))])
 
 /-- the two sides of every top-level definition -/
@@ -86,9 +91,20 @@ def defTerms (t : Term) : List Term :=
 def boundVars : Term → List Sym
   | .node _ args p => (match p with | .qvars vs => vs | _ => []) ++ (args.map boundVars).flatten
 
-/-- no symbol of a top-level definition is bound anywhere in the formula (the guard that excludes
-the capture of finding F51) -/
-def propagateSafe (t : Term) : Bool :=
-  (defTerms t).all (fun x => x.fv.all (fun s => !(boundVars t).contains s))
+/-- the substitution `sigma` of `propagate_toplevel`: every member that is not its own leader -/
+def movedOf (rank : Term → Int) (t : Term) : Option (List (Term × Term)) :=
+  (buildLeader rank (conjPartition t) []).map (fun l => l.filter (fun kv => kv.1 != kv.2))
+
+/-- no symbol of a *representative* (a value of `sigma`) is bound anywhere in the formula: the condition
+under which the substitution cannot capture (finding F51 is its failure) -/
+def repsNotBound (rank : Term → Int) (t : Term) : Bool :=
+  match movedOf rank t with
+  | some mv => mv.all (fun kv => kv.2.fv.all (fun s => !(boundVars t).contains s))
+  | none => true
+
+/-- `propagate_toplevel(t)` with the default `do_simplify=True`: the result is simplified
+(`res.simplify()`, model `Simplifier.simp` of C01) -/
+def propagateSimp (rank : Term → Int) (t : Term) : Option Term :=
+  (propagate rank t).map Simplifier.simp
 
 end PySMT.Rewritings
